@@ -114,8 +114,14 @@ def rectangle(sz, cmode='any', meta=True, max_ratio=100.0):
     return ellipse(sz, cmode, meta, 'RectanglePixelRegion', max_ratio)
 
 
-def polygon(sz, cmode='any', meta=True, max_vertices=12, simple_only=False):
-    """Convex, star-shaped and (unless simple_only) self-intersecting."""
+def polygon(sz, cmode='any', meta=True, max_vertices=12, simple_only=False,
+            revisits=True):
+    """Convex, star-shaped and (unless simple_only) self-intersecting; with
+    ``revisits`` also outlines that pass through a vertex more than once
+    without crossing themselves: 'closed' (first vertex repeated at the end,
+    as region files often have it) and 'keyhole' (outer ring, bridge, inner
+    ring the other way round, back over the bridge - a hole; even-odd and
+    non-zero winding agree on it)."""
     def mk(t):
         c, r, n, kind, ths, rads, d, origin = t
         ths = sorted(ths[:n])
@@ -125,11 +131,21 @@ def polygon(sz, cmode='any', meta=True, max_vertices=12, simple_only=False):
             rr = [r] * n
         elif kind == 'star':
             rr = [r * (0.25 + 0.75 * q) for q in rads[:n]]
+        elif kind in ('closed', 'keyhole'):
+            rr = [r * (0.4 + 0.6 * q) for q in rads[:n]]
         else:   # 'wild': shuffle the angular order -> self-intersections
             rr = [r * (0.25 + 0.75 * q) for q in rads[:n]]
             ths = ths[::2] + ths[1::2]
         vx = [c[0] + a * math.cos(th) for a, th in zip(rr, ths)]
         vy = [c[1] + a * math.sin(th) for a, th in zip(rr, ths)]
+        if kind == 'closed':
+            vx, vy = vx + vx[:1], vy + vy[:1]
+        elif kind == 'keyhole':
+            ri = [a * (0.2 + 0.4 * q) for a, q in zip(rr, rads[::-1])]
+            ix = [c[0] + a * math.cos(th) for a, th in zip(ri, ths)]
+            iy = [c[1] + a * math.sin(th) for a, th in zip(ri, ths)]
+            vx = vx + vx[:1] + ix[:1] + ix[:0:-1] + ix[:1]
+            vy = vy + vy[:1] + iy[:1] + iy[:0:-1] + iy[:1]
         d = dict(d)
         if origin is not None:
             vx = [v - origin[0] for v in vx]
@@ -139,6 +155,8 @@ def polygon(sz, cmode='any', meta=True, max_vertices=12, simple_only=False):
         d['shape_kind'] = kind
         return d
     kinds = ['convex', 'star'] if simple_only else ['convex', 'star', 'wild']
+    if revisits:
+        kinds = kinds + ['closed', 'keyhole']
     unit = st.floats(0, 1, allow_nan=False)
     return st.tuples(
         centers(cmode), sz, st.integers(3, max_vertices),
